@@ -87,6 +87,8 @@ class PIT(DNAS):
             fold_bn: bool = False):
         super(PIT, self).__init__(model, cost, input_example, input_shape)
         self.is_training = model.training
+        # convert() forces eval() on the user's model too: remember the status of each of its modules
+        user_training_status = {m: m.training for m in model.modules()}
         self.exclude_names = exclude_names
         self.exclude_types = tuple(exclude_types)
         self.seed, self._leaf_modules, self._unique_leaf_modules = convert(
@@ -111,6 +113,9 @@ class PIT(DNAS):
         else:
             self.eval()
             self.seed.eval()
+        # the model object passed by the user is left in the mode it was found in
+        for m, t in user_training_status.items():
+            m.training = t
 
     def forward(self, *args: Any) -> torch.Tensor:
         """Forward function for the DNAS model. Simply invokes the inner model's forward
